@@ -15,48 +15,48 @@ def rot (l : List IPt) (k : Nat) : List IPt := l.drop k ++ l.take k
 
 /-- starting a closed path at another vertex -/
 theorem wind_rotate (path : List IPt) (k : Nat) (p : QPt) : wind (rot path k) p = wind path p := by
-  sorry
+  exact Proofs.C17.wind_rot path k p
 
 /-- reversing a path negates its winding number -/
 theorem wind_reverse (path : List IPt) (p : QPt) : wind path.reverse p = - wind path p := by
-  sorry
+  exact Proofs.C17.wind_reverse path p
 
 /-- repeating a vertex (in particular the closing vertex) changes nothing -/
 theorem wind_repeat_vertex (pre post : List IPt) (v : IPt) (p : QPt) :
     wind (pre ++ v :: v :: post) p = wind (pre ++ v :: post) p := by
-  sorry
+  exact Proofs.C17.wind_repeat_vertex pre post v p
 
 theorem wind_closing_vertex (v : IPt) (rest : List IPt) (p : QPt) :
     wind (v :: rest ++ [v]) p = wind (v :: rest) p := by
-  sorry
+  exact Proofs.C17.wind_closing_vertex v rest p
 
 /-- permuting the paths of a set -/
 theorem windS_perm (a b : List (List IPt)) (h : a.Perm b) (p : QPt) : windS a p = windS b p := by
-  sorry
+  exact Proofs.C17.windS_perm a b h p
 
 theorem windS_reverse_all (a : List (List IPt)) (p : QPt) : windS (a.map List.reverse) p = - windS a p := by
-  sorry
+  exact Proofs.C17.windS_reverse_all a p
 
 /-- translation covariance -/
 theorem wind_translate (path : List IPt) (dx dy : Int) (p : QPt) :
     wind (path.map fun v => ⟨v.x + dx, v.y + dy⟩) ⟨p.x + dx, p.y + dy⟩ = wind path p := by
-  sorry
+  exact Proofs.C17.wind_translate path dx dy p
 
 /-- fill rules under negation: EvenOdd and NonZero are symmetric, Positive and Negative exchange -/
 theorem filled_neg (w : Int) :
     filled 0 (-w) = filled 0 w ∧ filled 1 (-w) = filled 1 w ∧ filled 2 (-w) = filled 3 w ∧ filled 3 (-w) = filled 2 w := by
-  sorry
+  exact Proofs.C17.filled_neg w
 
 /-- subject and clip may be exchanged for Intersection, Union and Xor -/
 theorem specIn_swap (ct fr : Nat) (wS wC : Int) (h : ct = 1 ∨ ct = 2 ∨ ct = 4) :
     specIn ct fr wS wC = specIn ct fr wC wS := by
-  sorry
+  exact Proofs.C17.specIn_swap ct fr wS wC h
 
 /-- global reversal with Positive ↔ Negative (and unchanged for EvenOdd / NonZero) -/
 theorem specIn_reverse_all (ct : Nat) (wS wC : Int) :
     specIn ct 2 (-wS) (-wC) = specIn ct 3 wS wC ∧ specIn ct 3 (-wS) (-wC) = specIn ct 2 wS wC ∧
     specIn ct 0 (-wS) (-wC) = specIn ct 0 wS wC ∧ specIn ct 1 (-wS) (-wC) = specIn ct 1 wS wC := by
-  sorry
+  exact Proofs.C17.specIn_reverse_all ct wS wC
 
 /-- no source of nondeterminism in the library: no goroutines, no iteration over maps, no
     pointer-to-integer conversion, no random / time / unsafe / sync import, no written package state -/
@@ -64,6 +64,6 @@ theorem no_nondeterminism_source :
     Facts.goStatements = [] ∧ Facts.mapRanges = [] ∧ Facts.pointerToInt = [] ∧
     (∀ i ∈ Facts.imports, i ≠ "math/rand" ∧ i ≠ "math/rand/v2" ∧ i ≠ "time" ∧ i ≠ "unsafe" ∧ i ≠ "sync" ∧ i ≠ "os") ∧
     (∀ g ∈ Facts.globals, g.writes = []) := by
-  sorry
+  decide
 
 end C17
